@@ -132,3 +132,35 @@ func probe4(c *Ctx) {
 		fmt.Println("INLINED", il.Caller, "<-", il.Callee, il.Pos)
 	}
 }
+
+func init() { Registry["SSADUMP"] = ssadump }
+
+// ssadump writes the (post-inlining) SSA of a function: PROBE_FN=pkgrel:Recv:Name
+func ssadump(c *Ctx) {
+	parts := strings.Split(os.Getenv("PROBE_FN"), ":")
+	if len(parts) != 3 {
+		return
+	}
+	fn := c.P.Func(parts[0], parts[1], parts[2])
+	if fn == nil {
+		fmt.Println("not found")
+		return
+	}
+	for _, b := range fn.Blocks {
+		var preds, succs []string
+		for _, p := range b.Preds {
+			preds = append(preds, fmt.Sprint(p.Index))
+		}
+		for _, s := range b.Succs {
+			succs = append(succs, fmt.Sprint(s.Index))
+		}
+		fmt.Printf("block %d  preds=%s succs=%s  %s\n", b.Index, strings.Join(preds, ","), strings.Join(succs, ","), b.Comment)
+		for _, in := range b.Instrs {
+			if v, ok := in.(ssa.Value); ok {
+				fmt.Printf("    %s = %s\n", v.Name(), in.String())
+			} else {
+				fmt.Printf("    %s\n", in.String())
+			}
+		}
+	}
+}
